@@ -3,7 +3,7 @@ import TaskModel.Finger.GlobsLemmas
 /-! Lemmas about `srcsNow` and the checksum byte stream (used by `Props.C05`). -/
 namespace TaskModel.Finger
 
-variable (pr : Proj)
+variable (nm : Path → Bytes)
 
 theorem lastFlag_nowPats (pats : List Pat) (fs : FS) (p : Path) :
     lastFlag (nowPats pats fs) p = if ahas fs p = true then lastFlag pats p else none := by
@@ -30,10 +30,10 @@ theorem mem_srcsNow (t : Task) (fs : FS) (p : Path) :
 theorem strictSorted_srcsNow (t : Task) (fs : FS) : StrictSorted (srcsNow t fs) :=
   strictSorted_globs _
 
-/-! ### the stream -/
+/-! ### the stream (for any naming `nm` of the paths; the machine uses `nameOf pr t`) -/
 
 theorem stream_congr (fs fs' : FS) (l : List Path) (h : ∀ p ∈ l, contentOf fs' p = contentOf fs p) :
-    stream pr fs' l = stream pr fs l := by
+    stream nm fs' l = stream nm fs l := by
   induction l with
   | nil => rfl
   | cons a l ih =>
@@ -41,7 +41,7 @@ theorem stream_congr (fs fs' : FS) (l : List Path) (h : ∀ p ∈ l, contentOf f
     rw [h a (by simp), ih (fun p hp => h p (by simp [hp]))]
 
 theorem stream_append (fs : FS) (l₁ l₂ : List Path) :
-    stream pr fs (l₁ ++ l₂) = stream pr fs l₁ ++ stream pr fs l₂ := by
+    stream nm fs (l₁ ++ l₂) = stream nm fs l₁ ++ stream nm fs l₂ := by
   induction l₁ with
   | nil => rfl
   | cons a l ih => simp [stream, ih]
@@ -49,7 +49,7 @@ theorem stream_append (fs : FS) (l₁ l₂ : List Path) :
 /-- a content edit of one listed file changes the stream -/
 theorem stream_edit (fs fs' : FS) (l : List Path) (p : Path) (hnd : l.Nodup) (hp : p ∈ l)
     (hne : contentOf fs' p ≠ contentOf fs p) (hoth : ∀ q, q ≠ p → contentOf fs' q = contentOf fs q) :
-    stream pr fs' l ≠ stream pr fs l := by
+    stream nm fs' l ≠ stream nm fs l := by
   induction l with
   | nil => simp at hp
   | cons a l ih =>
@@ -57,8 +57,8 @@ theorem stream_edit (fs fs' : FS) (l : List Path) (p : Path) (hnd : l.Nodup) (hp
     simp only [stream]
     by_cases ha : a = p
     · subst ha
-      have hrest : stream pr fs' l = stream pr fs l :=
-        stream_congr pr fs fs' l (fun q hq => hoth q (fun e => hnd.1 (e ▸ hq)))
+      have hrest : stream nm fs' l = stream nm fs l :=
+        stream_congr nm fs fs' l (fun q hq => hoth q (fun e => hnd.1 (e ▸ hq)))
       rw [hrest]
       intro heq
       rw [List.append_assoc, List.append_assoc] at heq
@@ -74,8 +74,8 @@ theorem stream_edit (fs fs' : FS) (l : List Path) (p : Path) (hnd : l.Nodup) (hp
       exact ih hnd.2 hp' (List.append_cancel_left heq)
 
 theorem stream_length_insertSorted (fs : FS) (q : Path) (l : List Path) :
-    (stream pr fs (insertSorted q l)).length =
-      (stream pr fs l).length + (baseOf pr q).length + (contentOf fs q).length := by
+    (stream nm fs (insertSorted q l)).length =
+      (stream nm fs l).length + (nm q).length + (contentOf fs q).length := by
   induction l with
   | nil => simp [insertSorted, stream]
   | cons a l ih =>
@@ -84,15 +84,15 @@ theorem stream_length_insertSorted (fs : FS) (q : Path) (l : List Path) :
     · simp only [stream, List.length_append]; omega
     · simp only [stream, List.length_append, ih]; omega
 
-/-- replacing one listed file by another with the same content but a different base name,
+/-- replacing one listed file by another with the same content but a different name,
 at the same position, changes the stream -/
 theorem stream_replace (fs fs' : FS) (l₁ l₂ : List Path) (p q : Path)
     (h1 : ∀ x ∈ l₁, contentOf fs' x = contentOf fs x) (h2 : ∀ x ∈ l₂, contentOf fs' x = contentOf fs x)
-    (hc : contentOf fs' q = contentOf fs p) (hb : baseOf pr q ≠ baseOf pr p) :
-    stream pr fs' (l₁ ++ q :: l₂) ≠ stream pr fs (l₁ ++ p :: l₂) := by
-  rw [stream_append, stream_append, stream_congr pr fs fs' l₁ h1]
+    (hc : contentOf fs' q = contentOf fs p) (hb : nm q ≠ nm p) :
+    stream nm fs' (l₁ ++ q :: l₂) ≠ stream nm fs (l₁ ++ p :: l₂) := by
+  rw [stream_append, stream_append, stream_congr nm fs fs' l₁ h1]
   simp only [stream]
-  rw [stream_congr pr fs fs' l₂ h2, hc]
+  rw [stream_congr nm fs fs' l₂ h2, hc]
   intro heq
   have h3 := List.append_cancel_left heq
   rw [List.append_assoc, List.append_assoc] at h3
